@@ -141,7 +141,7 @@ class CheckContext:
         cov.update(self.extra)
         nviol = len(self.violations)
         evidence.write(self.prop, self.tier, self.seed, cov, wall, nviol, self.assumptions, level=level)
-        rdir = os.path.join(evidence.VERIF, "replays")
+        rdir = evidence.replay_dir()
         if os.path.isdir(rdir):
             for fn in os.listdir(rdir):
                 if fn.startswith(self.prop + "-"):
